@@ -41,6 +41,8 @@ StateTags(ev, cs) ==
        \cup Tag(\A i \in 1..Len(ev.cells) : ev.cells[i].tvol_ge_min, "C04_TargetVolumeClamped")
        \cup Tag(\A i \in 1..Len(ev.cells) : ev.cells[i].ready => ev.cells[i].type = 0, "C04_OnlyEpithelialDivide")
        \cup Tag(ev.time_ok, "C19_TimeAdvancesByDt")
+       \* "... until T is reached": no iteration starts (event 0) once the simulated time has reached the duration
+       \cup Tag(ev.before_T, "C19_StopsWhenTReached")
        \* design drift, not a verdict (the factor three between the two thresholds is the solver's choice, no documentation states
        \* it): right after the refinement phase (event 4) no edge of a cell whose pass ended normally is longer than three minimum
        \* edge lengths (RefinePass.Complete, carried over to the real solver loop)
@@ -132,6 +134,7 @@ TSpec == TInit /\ [][TNext]_tvars
 ReportAll == tags = {} \/ PrintT(<<"TAGS", l, tags>>)
 NoTag(t) == t \notin tags
 I_C19_FileContentIsAliveCells == NoTag("C19_FileContentIsAliveCells")
+I_C19_StopsWhenTReached == NoTag("C19_StopsWhenTReached")
 I_D_UpperThresholdIsThreeLmin == NoTag("D_UpperThresholdIsThreeLmin")
 I_C08_LidIsIndex == NoTag("C08_LidIsIndex")
 I_C08_IdsUnique == NoTag("C08_IdsUnique")
